@@ -368,9 +368,16 @@ class LBRun(object):
     if robust and duration >= 40.0 and tail and members > 0:
       self.flags.add('settling_checked')
       late = [c for c in st['changes'] if c[0] >= st['start'] + duration - 10.0]
-      if late:
-        self.viol('C06', 'not-settled', 'level %d held for %.0f s, stable sizes %r exist, but load still changes the active size in the last 10 s: %r' % (
-            lvl, duration, robust, [(round(t - st['start'], 2), x, y) for t, x, y in late[:6]]))
+
+      def must_move(sz):
+        # the smoothed load reads between lvl-1 and lvl: a size must move only if it would for every value in that range
+        up = ((lvl - 1) / float(sz) >= a['max_load'] * 1.08) and sz < cap
+        down = (lvl / float(sz) <= a['min_load'] * 0.92) and sz > a['min_size']
+        return up or down
+      overdue = [c for c in late if c[1] > 0 and must_move(c[1])]
+      if overdue:
+        self.viol('C06', 'not-settled', 'level %d held for %.0f s, stable sizes %r exist, but a size that had to change for any smoothed load in [%d, %d] only changed in the last 10 s: %r' % (
+            lvl, duration, robust, lvl - 1, lvl, [(round(t - st['start'], 2), x, y) for t, x, y in overdue[:6]]))
       zf = tail[-1]
       if a.get('jitter_min', 0):
         zf = None     # a jitter round may be in progress: the momentary size says nothing
